@@ -1,0 +1,197 @@
+//go:build verif
+
+package apk
+
+import (
+	"context"
+	"fmt"
+	"maps"
+	"reflect"
+	"slices"
+	"sort"
+	"strings"
+)
+
+// Hooks for the aliasing histories of the verification harness (property C08): they only READ the
+// process-wide caches and the resolvers handed out by them.
+
+// VerifPublishedResolver returns the resolver the process-wide cache holds for these index objects
+// (the prototype every NewPkgResolver result is a Clone of), or nil.
+func VerifPublishedResolver(indexes []NamedIndex) *PkgResolver {
+	globalResolverCache.Lock()
+	defer globalResolverCache.Unlock()
+	return globalResolverCache.find(indexes)
+}
+
+// VerifFreshResolver builds a resolver from the index objects without touching the resolver cache.
+func VerifFreshResolver(ctx context.Context, indexes []NamedIndex) *PkgResolver {
+	return newPkgResolver(ctx, indexes)
+}
+
+// VerifPublishedDisqualify returns the disqualification map the process-wide cache holds for these
+// architectures (the map every Get result is a maps.Clone of), or nil.
+func VerifPublishedDisqualify(byArch map[string][]NamedIndex) map[*RepositoryPackage]string {
+	globalDisqualifyCache.Lock()
+	defer globalDisqualifyCache.Unlock()
+	indexes := slices.Concat(slices.Collect(maps.Values(byArch))...)
+	slices.SortFunc(indexes, func(a, b NamedIndex) int {
+		return strings.Compare(a.Name(), b.Name())
+	})
+	return globalDisqualifyCache.find(indexes)
+}
+
+// VerifFreshDisqualify computes the cross-architecture difference without the cache.
+func VerifFreshDisqualify(ctx context.Context, byArch map[string][]NamedIndex) map[*RepositoryPackage]string {
+	return disqualifyDifference(ctx, byArch)
+}
+
+func verifPkgLine(p *RepositoryPackage) string {
+	if p == nil || p.Package == nil {
+		return "<nil>"
+	}
+	uri := ""
+	if p.repository != nil && p.repository.Repository != nil {
+		uri = p.repository.URI
+	}
+	return fmt.Sprintf("%s-%s@%s o=%s k=%d d=%q p=%q i=%q", p.Name, p.Version, uri, p.Origin, p.ProviderPriority, p.Dependencies, p.Provides, p.InstallIf)
+}
+
+func verifMapDump(name string, m map[string][]*repositoryPackage, b *strings.Builder) {
+	keys := make([]string, 0, len(m))
+	for k := range m {
+		keys = append(keys, k)
+	}
+	sort.Strings(keys)
+	fmt.Fprintf(b, "%s %d\n", name, len(m))
+	for _, k := range keys {
+		fmt.Fprintf(b, " %q:", k)
+		for _, rp := range m[k] {
+			if rp == nil {
+				b.WriteString(" <nil>")
+				continue
+			}
+			fmt.Fprintf(b, " [%s pin=%s]", verifPkgLine(rp.RepositoryPackage), rp.pinnedName)
+		}
+		b.WriteString("\n")
+	}
+}
+
+// VerifResolverDump: everything reachable from a resolver, canonically (map keys sorted, slices in order).
+func VerifResolverDump(p *PkgResolver) string {
+	if p == nil {
+		return "<nil>"
+	}
+	var b strings.Builder
+	fmt.Fprintf(&b, "indexes %d\n", len(p.indexes))
+	for _, ix := range p.indexes {
+		fmt.Fprintf(&b, " %q %q %d\n", ix.Name(), ix.Source(), ix.Count())
+		for _, pk := range ix.Packages() {
+			fmt.Fprintf(&b, "  %s\n", verifPkgLine(pk))
+		}
+	}
+	verifMapDump("nameMap", p.nameMap, &b)
+	verifMapDump("installIfMap", p.installIfMap, &b)
+	keys := make([]string, 0, len(p.selected))
+	for k := range p.selected {
+		keys = append(keys, k)
+	}
+	sort.Strings(keys)
+	fmt.Fprintf(&b, "selected %d\n", len(p.selected))
+	for _, k := range keys {
+		fmt.Fprintf(&b, " %q: %s\n", k, verifPkgLine(p.selected[k]))
+	}
+	return b.String()
+}
+
+// VerifDisqualifyDump: a disqualification map, canonically.
+func VerifDisqualifyDump(dq map[*RepositoryPackage]string) string {
+	if dq == nil {
+		return "<nil>"
+	}
+	lines := make([]string, 0, len(dq))
+	for p, why := range dq {
+		lines = append(lines, verifPkgLine(p)+" => "+why)
+	}
+	sort.Strings(lines)
+	return fmt.Sprintf("dq %d\n%s", len(dq), strings.Join(lines, "\n"))
+}
+
+func verifRefID(v reflect.Value) (uintptr, int) {
+	switch v.Kind() {
+	case reflect.Map, reflect.Pointer, reflect.UnsafePointer, reflect.Chan, reflect.Func:
+		return v.Pointer(), 0
+	case reflect.Slice:
+		return v.Pointer(), v.Len()
+	case reflect.Interface:
+		if v.IsNil() {
+			return 0, 0
+		}
+		return verifRefID(v.Elem())
+	}
+	return 0, -1
+}
+
+// VerifCloneShape compares, field by field of the struct (reflection: a new field shows up by itself),
+// what a resolver handed out by the cache shares with the cached prototype:
+//
+//	<field>:<len of the prototype's container>:<same|distinct>/<shared|none|other>
+//
+// same = the very same container; distinct/shared = another container whose entries refer to the same
+// objects; distinct/none = another, empty container.
+func VerifCloneShape(proto, c *PkgResolver) []string {
+	pv, cv := reflect.ValueOf(proto).Elem(), reflect.ValueOf(c).Elem()
+	var out []string
+	for i := 0; i < pv.NumField(); i++ {
+		name := pv.Type().Field(i).Name
+		pf, cf := pv.Field(i), cv.Field(i)
+		n := 0
+		if pf.Kind() == reflect.Map || pf.Kind() == reflect.Slice {
+			n = pf.Len()
+		}
+		pid, pl := verifRefID(pf)
+		cid, cl := verifRefID(cf)
+		ident := "distinct"
+		if pid == cid && pl == cl {
+			ident = "same"
+		}
+		entries := "other"
+		switch pf.Kind() {
+		case reflect.Map:
+			if cf.Len() == 0 {
+				entries = "none"
+			} else if cf.Len() == pf.Len() {
+				entries = "shared"
+				it := pf.MapRange()
+				for it.Next() {
+					ce := cf.MapIndex(it.Key())
+					if !ce.IsValid() {
+						entries = "other"
+						break
+					}
+					a, al := verifRefID(it.Value())
+					b, bl := verifRefID(ce)
+					if a != b || al != bl {
+						entries = "other"
+						break
+					}
+				}
+			}
+		case reflect.Slice:
+			if cf.Len() == 0 {
+				entries = "none"
+			} else if cf.Len() == pf.Len() {
+				entries = "shared"
+				for k := 0; k < pf.Len(); k++ {
+					a, al := verifRefID(pf.Index(k))
+					b, bl := verifRefID(cf.Index(k))
+					if a != b || al != bl {
+						entries = "other"
+						break
+					}
+				}
+			}
+		}
+		out = append(out, fmt.Sprintf("%s:%d:%s/%s", name, n, ident, entries))
+	}
+	return out
+}
